@@ -38,7 +38,7 @@ def _spawn(prop, tier, seed, shard, nshard, out, extra=()):
 
 
 def _write_replay(prop, case, info):
-  d = os.path.join(VERIF, "replays", prop)
+  d = os.path.join(os.environ.get("VF_REPLAY_DIR") or os.path.join(VERIF, "replays"), prop)  # VF_REPLAY_DIR: scratch runs against seeded changes
   os.makedirs(d, exist_ok=True)
   h = core.case_hash(case)
   path = os.path.join(d, f"{h}.json")
